@@ -223,10 +223,18 @@ class Product:
         for (t, v, w) in e.decisions:
             if t[0] == "app" and t[1] == "has_next":
                 it = t[2][0]
-                level = "C" if (it[0] == "iter" and it[1] == "enumerate") else "I"
+                level = "C" if (it[0] == "iter" and it[1] == "enumerate") else "F" if (it[0] == "iter" and it[1] == "flat_map") else "I"
                 seq.append((level, v))
         if not seq:
             return "none"
+        if seq and all(l == "F" for l, _ in seq):
+            # one flattened iterator over all chunks of all items (items.flat_map(|i| i.chunks(N).enumerate())): "there is a
+            # next chunk" covers both the same item's next chunk and the next item's first one
+            if seq == [("F", 0)]:
+                return "done"
+            if seq == [("F", 1)]:
+                return "first" if src_kind == "X1" else ("next-chunk", "next-item")
+            return "invalid"
         if src_kind == "X1":
             if seq == [("I", 1), ("C", 1)]:
                 return "first"
@@ -297,21 +305,25 @@ class Product:
                     problems.append(("controller-stuck", name, a0, tr2))
                     continue
                 for e, envatoms in succ:
-                    choice = self.classify_env(c, kindof.get(nk), e)
+                    choices = self.classify_env(c, kindof.get(nk), e)
+                    for choice in (choices if isinstance(choices, tuple) else (choices,)):
+                        self.follow(c, env, kindof, nk, node, e, choice, b, tr2, work, terminals)
+        return terminals, problems
+
+    def follow(self, c, env, kindof, nk, node, e, choice, b, tr2, work, terminals):
                     if choice == "invalid":
-                        continue
+                        return
                     if env == "config":
                         # exactly one item (iter::once of the 16-byte block: C09.O4 + C19.O1) of exactly one chunk
                         if kindof.get(nk) == "X1" and choice != "first":
-                            continue
+                            return
                         if kindof.get(nk) == "X2" and choice != "done":
-                            continue
+                            return
                     nxt_off0 = choice in ("first", "next-item")
                     if e.dst is not None:
                         work.append((e.dst, b, nxt_off0, tr2))
                     else:
                         terminals.append((c.outcome_sig(e, node), b, tr2))
-        return terminals, problems
 
     def reply_term(self, c, reply):
         if reply is None:
